@@ -29,7 +29,7 @@ def bo_class(r):
 
 def backoff_suite(ctx, vh):
     suites = [("grid", ["-mode", "grid", "-tier", ctx.tier, "-seed", ctx.seed]),
-              ("random", ["-mode", "random", "-seed", ctx.seed, "-n", 3000 if ctx.quick else 60000])]
+              ("random", ["-mode", "random", "-seed", ctx.seed, "-n", 1500 if ctx.quick else 60000])]
     for name, args in suites:
         rows = ctx.vh_jsonl(vh, "backoff", args)
         if rows is None:
@@ -158,7 +158,7 @@ def rc_delivery_ok(row):
 
 
 def reconnect_suite(ctx, vh):
-    n = 40 if ctx.quick else 400
+    n = 25 if ctx.quick else 400
     rows = ctx.vh_jsonl(vh, "reconnect", ["-seed", ctx.seed, "-n", n, "-par", 10], timeout=900)
     if rows is None:
         return
@@ -275,7 +275,7 @@ def off_show(row):
 
 def offline_suite(ctx, vh):
     import json, os
-    rows = ctx.vh_jsonl(vh, "offline", ["-seed", ctx.seed, "-n", 110 if ctx.quick else 1500, "-par", 10], timeout=900)
+    rows = ctx.vh_jsonl(vh, "offline", ["-seed", ctx.seed, "-n", 70 if ctx.quick else 1500, "-par", 10], timeout=900)
     if rows is None:
         return
     disturbed = [r for r in rows if r["timeout"]]
